@@ -78,10 +78,13 @@ type monitor struct {
 	chunks   map[int64]map[string]*big.Int // chunk index -> validator -> credited, not matured yet
 	firstNew int64                         // index of the first chunk this chain fills; chunks below came with the genesis
 	carried  bool                          // the genesis carries a reward state
-	matured  map[string]*big.Int           // validator -> matured so far (reference)
-	names    map[string]string
-	feats    map[string]int
-	maxOver  *big.Int
+	// withdrawn before the genesis according to the genesis, and the withdrawn records of the first state
+	// (equal when the import is faithful; both empty on a plain genesis)
+	wdGenesis, cwInit map[string]*big.Int
+	matured           map[string]*big.Int // validator -> matured so far (reference)
+	names             map[string]string
+	feats             map[string]int
+	maxOver           *big.Int
 }
 
 // chunkIndex numbers the chunk that collects the credits of height h: the numbering record in force
@@ -140,6 +143,7 @@ func (m *monitor) importRewards(w *hist.World, pr *sim.PreRewards) {
 		if mustBig(b.Amount).Sign() > 0 {
 			m.feats["imported-withdrawn-amounts"] = 1
 		}
+		m.wdGenesis[addr(b.Val)] = new(big.Int).Add(get(m.wdGenesis, addr(b.Val)), mustBig(b.Amount))
 	}
 	// the application takes the year records over only when there is one per yearly share
 	if len(pr.Years) == len(m.s.Shares) && len(pr.Years) > 0 {
@@ -170,13 +174,14 @@ func newMonitor(w *hist.World) *monitor {
 		shares = append(shares, mustBig(s))
 	}
 	m := &monitor{
-		s:        NewSched(p.RewardCycle, p.RewardEstSecs, p.RewardCloseWin, shares, mustBig(p.RewardBurnout)),
-		interval: p.RewardInterval,
-		seenTx:   map[[32]byte]bool{},
-		chunks:   map[int64]map[string]*big.Int{},
-		matured:  map[string]*big.Int{},
-		names:    map[string]string{},
-		feats:    map[string]int{},
+		s:         NewSched(p.RewardCycle, p.RewardEstSecs, p.RewardCloseWin, shares, mustBig(p.RewardBurnout)),
+		interval:  p.RewardInterval,
+		seenTx:    map[[32]byte]bool{},
+		chunks:    map[int64]map[string]*big.Int{},
+		matured:   map[string]*big.Int{},
+		wdGenesis: map[string]*big.Int{},
+		names:     map[string]string{},
+		feats:     map[string]int{},
 	}
 	for _, v := range w.G.U.Vals {
 		m.names[v.Key.Addr.String()] = v.Name
@@ -189,6 +194,7 @@ func newMonitor(w *hist.World) *monitor {
 		m.importRewards(w, p.PreRewards)
 	}
 	m.prev = dlgrw.NewView(w.Primary().DumpMap())
+	m.cwInit = m.prev.CumWithdrawn()
 	return m
 }
 
@@ -367,14 +373,21 @@ func (m *monitor) block(b *sim.Block, res *sim.BlockRes, dump map[string][]byte)
 		delete(m.chunks, cur-2) // a chunk matures once
 	}
 	cb, cw := v.CumBalance(), v.CumWithdrawn()
-	for _, a := range sortedKeys(cb, cw) {
+	for _, a := range sortedKeys(cb, cw, m.wdGenesis) {
 		mat := get(m.matured, a)
-		if get(cw, a).Cmp(mat) > 0 {
-			return &outcome{"withdrawn<=matured", "withdrawn", fmt.Sprintf("h=%d: validator %s has withdrawn %s in total but only %s has matured for it (interval %d)", h, m.name(a), get(cw, a), mat, m.interval)}
+		// withdrawn in total = what the genesis states as withdrawn before + what this chain's record grew by since its first state
+		wd := new(big.Int).Sub(get(cw, a), get(m.cwInit, a))
+		wd.Add(wd, get(m.wdGenesis, a))
+		before := ""
+		if m.carried {
+			before = fmt.Sprintf(" (%s of it before the genesis, by the genesis; withdrawn record at height 0: %s)", get(m.wdGenesis, a), get(m.cwInit, a))
 		}
-		can := new(big.Int).Add(get(cw, a), get(cb, a))
+		if wd.Cmp(mat) > 0 {
+			return &outcome{"withdrawn<=matured", "withdrawn", fmt.Sprintf("h=%d: validator %s has withdrawn %s in total%s but only %s has matured for it (interval %d)", h, m.name(a), wd, before, mat, m.interval)}
+		}
+		can := new(big.Int).Add(wd, get(cb, a))
 		if can.Cmp(mat) > 0 {
-			return &outcome{"withdrawn<=matured", "withdrawable", fmt.Sprintf("h=%d: validator %s has withdrawn %s and can still withdraw %s, together more than the %s that has matured for it (interval %d)", h, m.name(a), get(cw, a), get(cb, a), mat, m.interval)}
+			return &outcome{"withdrawn<=matured", "withdrawable", fmt.Sprintf("h=%d: validator %s has withdrawn %s%s and can still withdraw %s, together more than the %s that has matured for it (interval %d)", h, m.name(a), wd, before, get(cb, a), mat, m.interval)}
 		}
 		if get(cw, a).Sign() < 0 {
 			m.feats["negative-withdrawn-record"]++
